@@ -460,7 +460,43 @@ func enumSmall(tier string, yield func(ReasmCase) bool) {
 	}
 }
 
+// genLong: a long-lived buffer - hundreds of consecutive multi-fragment messages (more than the
+// buffer's 1000-fragment budget in total, never more than a few pending at once), some fragments
+// duplicated or swapped with a neighbour.
+func genLong(t *rapid.T) ReasmCase {
+	c := ReasmCase{Start: rapid.SampledFrom([]int{0, 0, 5, 60000}).Draw(t, "start")}
+	k := rapid.IntRange(150, 420).Draw(t, "k")
+	for m := 0; m < k; m++ {
+		nf := rapid.IntRange(2, 6).Draw(t, "nf")
+		n := nf * rapid.IntRange(1, 40).Draw(t, "flen")
+		c.Lens = append(c.Lens, n)
+		c.Types = append(c.Types, rapid.SampledFrom([]int{4, 11, 16, 24}).Draw(t, "typ"))
+		fl := n / nf
+		var frs []Frag
+		for i := 0; i < nf; i++ {
+			frs = append(frs, Frag{m, i * fl, fl})
+		}
+		switch rapid.IntRange(0, 5).Draw(t, "shape") {
+		case 0:
+			frs = append(frs, frs[rapid.IntRange(0, nf-1).Draw(t, "dupi")])
+		case 1:
+			i := rapid.IntRange(0, nf-2).Draw(t, "swapi")
+			frs[i], frs[i+1] = frs[i+1], frs[i]
+		}
+		for _, f := range frs {
+			c.Records = append(c.Records, []Frag{f})
+		}
+	}
+
+	return c
+}
+
 func init() {
+	pbt.Register(pbt.Prop[ReasmCase]{
+		Name: "reassembly-long-session", Quick: 160, Thorough: 6000, Gen: genLong, Run: runReasm,
+		Rule: "receiver, long session: 150..420 consecutive messages of 2..6 fragments each (more fragments in total than the buffer's 1000-fragment budget, " +
+			"few pending at any time), occasional duplicate / swapped fragment; same reference-reassembler oracle (every message must surface). distinct = whole case",
+	})
 	pbt.Register(pbt.Prop[ReasmCase]{
 		Name: "reassembly", Quick: 200000, Thorough: 4000000,
 		Gen: genReasm, Run: runReasm,
